@@ -2,6 +2,7 @@ package e2
 
 import (
 	"fmt"
+	"strings"
 	"testing"
 	"time"
 
@@ -26,6 +27,11 @@ type c04path struct {
 
 func c04paths() []c04path {
 	var out []c04path
+	// an exchange nobody acknowledges ends by its deadline whatever else is (not) going on on the node: an inbound QoS 2
+	// publish released three seconds AFTER the deadline registered for it finds no exchange any more
+	for _, cause := range []string{"none", "connection-lost"} {
+		out = append(out, c04path{"inbound-qos2-released-late", cause, 100})
+	}
 	for _, pe := range []string{"qos1-awaiting-puback", "qos2-awaiting-pubrec", "qos2-awaiting-pubcomp", "inbound-qos2-awaiting-pubrel"} {
 		for _, cause := range []string{"none", "connection-lost", "disconnect", "displaced", "protocol-error", "refused-connect"} {
 			for _, ms := range []int{100, 1200, 2300} {
@@ -97,7 +103,7 @@ func TestC04OtherSessionEnds(t *testing.T) {
 					pub.Publish(topic, "m", 2, false, 7)
 					w.Step()
 					pub.Send(&packet.PubRel{Header: &packet.Header{}, MessageId: 7})
-				case "inbound-qos2-awaiting-pubrel":
+				case "inbound-qos2-awaiting-pubrel", "inbound-qos2-released-late":
 					pub.Publish("in/x", "m", 2, false, 7)
 				}
 				w.Step()
@@ -116,7 +122,7 @@ func TestC04OtherSessionEnds(t *testing.T) {
 					w.Step()
 				}
 				n0, id := 0, int32(0)
-				if p.Pending != "inbound-qos2-awaiting-pubrel" {
+				if !strings.HasPrefix(p.Pending, "inbound-qos2") {
 					n0, id = copies()
 					if n0 != 1 {
 						viol("c04-wire-initial-delivery-missing", "expected exactly one copy of the pending packet at the subscriber, saw %d", n0)
@@ -168,7 +174,21 @@ func TestC04OtherSessionEnds(t *testing.T) {
 						return
 					}
 				}
-				if p.Pending == "inbound-qos2-awaiting-pubrel" {
+				if p.Pending == "inbound-qos2-released-late" {
+					w.Idle(time.Until(reg.Deadline) + 3*time.Second)
+					pub.Send(&packet.PubRel{Header: &packet.Header{}, MessageId: 7})
+					w.Idle(2 * time.Second)
+					got := 0
+					for _, pk := range watch.Publishes() {
+						if string(pk.Topic) == "in/x" {
+							got++
+						}
+					}
+					if got != 0 || pub.Has("PUBCOMP(7)") {
+						viol("c04-wire-exchange-outlives-its-deadline", "the publisher released its QoS 2 publish 3 s after the deadline registered for the exchange (nothing else was in flight on the node); the exchange was still there: the matching subscriber received %d copies, PUBCOMP sent: %v", got, pub.Has("PUBCOMP(7)"))
+						return
+					}
+				} else if p.Pending == "inbound-qos2-awaiting-pubrel" {
 					// released in time: forwarded exactly once, completed
 					pub.Send(&packet.PubRel{Header: &packet.Header{}, MessageId: 7})
 					w.Idle(2 * time.Second)
